@@ -1522,8 +1522,8 @@ def run(ctx):
         "file timestamps set explicitly with os.utime (granularity of real file systems not modelled)"]
     ctx.assumptions += [
         "item contents and the parser are opaque in the model: the result of parsing an item is a function of the item and of the items visible",
-        "Lean theorems are about histories that keep file contents (touch, loads, faulted loads, imports, load_metadata); edits are "
-        "covered by the subprocess oracles and the model correspondence only",
+        "Lean theorems cover histories with edits under OkHistory: a replaced/touched file gets a timestamp it never had in this "
+        "process; no load between an edit of `imports` and load_metadata",
         "a change of a file's `imports` needs basic.load_metadata() before the next load (known finding, generated and keyed)",
         "the Python package smt/ of the repository is shadowed by site-packages and is not imported in histories",
         "no theorem bounds the model's fuel; the runs use fuel 400 and would show a model answer `fuel` as a correspondence break",
@@ -1560,38 +1560,42 @@ def replay(ctx, rp):
 MANIFEST = {
     "text": "Lean theorems about an executable model of the loader state machine (per-user cache with timestamps and dependency "
             "timestamps, global theory, fresh_theory blocks, import-once module side effects, injected faults, extensions that "
-            "raise when cached items are re-applied), for every world (parser, extension clashes, lazy-import table, module "
-            "bodies), library, timestamps and fuel. SCOPE OF THE THEOREMS: histories that KEEP THE CONTENT of every file "
-            "(loads, interrupted loads, module imports, os.utime forwards/backwards, load_metadata). For those: load_eq_spec "
-            "(healthy library: no parse exception, no clash between items, acyclic, orders exist) -- the outcome of "
-            "load_theory(n, limit) is the specification's (same item list, 'limit not found' exactly when specified, never a "
-            "failure caused by the history); load_eq_spec_partial (any library: a normal return carries the specified theory); "
-            "import_clash_reported, missing_limit_reported, cycle_reported (every load, nothing cached); changed_file_reread: a "
-            "file whose TIMESTAMP differs (older or newer) from the cached one is parsed again and the new entry records the "
-            "timestamps of ALL transitive imports. NOT covered by a general theorem: histories in which file contents change "
-            "(fix C12-3, the `depends` list, has only changed_file_reread's last clause and one concrete instance "
-            "indirect_edit_older_mtime_example); these are judged by the deterministic battery of scripted histories. "
-            "FUEL: every theorem admits the outcome 'the model ran out of fuel'; no theorem says that some amount of fuel "
-            "suffices (the model's termination is not proved); every run confirms on its own histories that fuel 400 sufficed. "
+            "raise, several users), for every world (parser, extension clashes, lazy-import table, module bodies), library, "
+            "timestamps and fuel. HISTORIES: loads (any limit, with or without an injected fault), module imports, os.utime, "
+            "EDITS (a file replaced: new items, new imports, new timestamp -- older timestamps included) and load_metadata, under "
+            "the explicit hypothesis OkHistory, which excludes exactly (i) a touch/edit that gives a file a timestamp it already "
+            "had earlier in the process (the assumption a timestamp cache relies on) and (ii) a load between an edit that "
+            "changes the `imports` of a file and the next load_metadata (known finding, stale_imports_counterexample). For those: "
+            "load_eq_spec (library healthy NOW) -- the outcome of load_theory(n, limit) IS the specification on the CURRENT "
+            "files; load_eq_fresh_process -- it is what a process that has just started on the current files returns; "
+            "load_returns_spec (any library: a normal return carries the specified theory); cache_invariant (every reusable "
+            "cache entry holds the specified parse of its file in the current library and recorded a timestamp for every "
+            "transitive import) and cache_invariant_after_error (a load that raised leaves a cache from which every later load "
+            "still equals the specification; what theory.thy holds right after an exception is NOT specified); "
+            "import_clash_reported, missing_limit_reported, cycle_reported, changed_file_reread. SEVERAL USERS: the model "
+            "(execU/stepU) has a library and cache per user, loads focus on the user's own directory (the code has NO "
+            "shadowing of / fall-back to master), module-level load_theory calls go to master; "
+            "user_resolution_spec_partial (a user's load = the specification on that user's files) is proved for worlds "
+            "without lazy imports only, users_isolated_partial for file operations only; the cross-user effects of loads "
+            "through lazy imports are tied by the second-user histories (now compared with the model step by step), not by a "
+            "theorem. FUEL: every theorem admits the outcome 'the model ran out of fuel'; no theorem says that some amount of "
+            "fuel suffices; every run confirms on its own histories that fuel 400 sufficed. "
             "FAILING-INPUT SEARCH: when the model correspondence breaks on a synthetic history on which no oracle objected, an "
-            "amplified history (every earlier load repeated after every change, the loaded theories replaced by their other "
-            "versions in turn) is run with every load judged against its own fresh process. What theory.thy holds AFTER an "
-            "exception is not compared. "
+            "amplified history is run with every load judged against its own fresh process. "
             "Tables (import graph, lazy imports, module -> load_theory calls) are regenerated from the sources each run and "
             "checked. Tie to logic/basic.py: scripted histories in subprocesses; every load is judged (a) against a fresh "
             "process on the files of that moment, (c) against a reference loader on observable names and exception classes "
             "only, and (b) compared with the model (outcome class, files parsed, modules executed, item list).",
     "note": "Trusted: Lean kernel, propext/Classical.choice/Quot.sound, the harness, the reference loader. Item contents are opaque. "
             "The property oracles (a) and (c) use only what a user can observe (exception class, names and canonical dump of "
-            "theory.thy); the tags threaded through wrapped internals (load_json_data, parse_item, get_extension, "
-            "unchecked_extend) serve the model correspondence only and are dropped, with a note in the evidence, when a "
-            "refactoring bypasses them. For REAL theories the reference loader takes the per-item ok flags from the "
-            "implementation's own run, so oracle (c) is independent there only for import order, limit logic and "
-            "presence/absence of item names; for synthetic libraries it is fully independent. Synthetic-library processes "
-            "are forked from one process that has imported the loader (state of a fresh process after `from logic import "
-            "basic`); real-library histories run in cold processes. Same-mtime-different-content is out of scope. Known "
-            "finding: edited `imports` are not re-read without load_metadata (stale_imports_counterexample). Model = code with "
-            "fixes C12-1..4; single user (master).",
+            "theory.thy); the tags threaded through wrapped internals serve the model correspondence only and are dropped, with "
+            "a note in the evidence, when a refactoring bypasses them. For REAL theories the reference loader takes the per-item "
+            "ok flags from the implementation's own run, so oracle (c) is independent there only for import order, limit logic "
+            "and presence/absence of item names; for synthetic libraries it is fully independent. Synthetic-library processes "
+            "are forked from one process that has imported the loader; real-library histories run in cold processes. "
+            "Same-mtime-different-content (a timestamp reused for different content) is outside the property: it is exactly "
+            "hypothesis (i) of OkHistory. Known finding: edited `imports` are not re-read without load_metadata. Model = code "
+            "with fixes C12-1..4.",
     "design_ref": "DESIGN.md 4/C12",
 }
 FINDINGS = [
